@@ -95,6 +95,14 @@ PROPS["C13"] = {
     "level_text": "Every function that reads the record (handleWatchEvent, checkKeyAndReelect, attemptPriorityTakeover, heartbeat conflict path) runs symbolically on an abstract record whose parse results are solver variables, so all byte strings are covered at once; panics, unbounded recursion (call-depth assertion) and runaway loops (step budget) are events of the executor, and claims over a foreign live record are checked against the store.",
     "level_note": "JSON over-approximation; bounds above; reductions R1/R2.",
 }
+PROPS["C09"] = {
+    "groups": [{"run": "^vpH_C09_T_"}],
+    "bounds": {"quick": "stop variants Stop, StopWithContext{}, {DeleteKey}, {DeleteKey,WaitForDemote}; the stop call is placed by the explorer at EVERY store-operation leg (before issue, between issue and application, between application and response, after the response) and at every quiescent instant (timer boundary) of (a) a leader during 2.5 heartbeats, (b) a follower during the 500ms in which its leader vanishes and its acquisition round runs (jitter wait, Create in flight), (c) the first second after Start with a Create latency of up to 7s (longer than Stop's own 5s wait); repeated stops and stop-then-start; after the return: 6s (or 15s) more of virtual time, then the claim, OnPromote count, store-operation issue log, surviving goroutines and state are checked"},
+    "outside": "stops during reconnect verification (C11 harnesses); OnDemote callbacks that block; StopWithContext with a caller context that is cancelled",
+    "assumptions": [],
+    "level_text": "The real Stop/StopWithContext run concurrently with the real background goroutines; the explorer places the call at every scheduling point within the bound, store latencies are symbolic, and finality (no claim, no OnPromote, no store operation, no surviving goroutine after the return) and the return-time bound are checked on every path by monitors inside the Metrics callback and the store's issue log.",
+    "level_note": "Reductions R1/R2 (a stop between two atomics of one critical section is not explored); bounded windows as listed.",
+}
 PROPS["S00"] = {"groups": [{"run": "^vpH_S00_"}], "level_text": "engine smoke test", "level_note": ""}
 
 NOT_APPLICABLE = {}
